@@ -447,9 +447,20 @@ def c05(run=None):
 # ---------------------------------------------------------------------------------------------
 
 def c08(run=None):
+    from pyvc import defassign
     fc = FrameCheck()
     an = fc.an
+    bad = defassign.selftest()
+    if bad:
+        raise RuntimeError(f'definite-assignment analysis fails its self-test: {bad[:2]}')
     for q, fi in sorted(an.funcs.items()):
+        # an UnboundLocalError is not an AmpycloudError: every read of a local happens after an assignment on every path
+        try:
+            probs = defassign.analyse_function(fi.node)
+            fc.ob(q, 'locals_definitely_assigned', not probs,
+                  '; '.join(f'line {ln}: `{nm}` may be read before it is assigned' for ln, nm in probs[:4]))
+        except NotImplementedError as e:
+            fc.ob(q, 'locals_definitely_assigned', False, f'statement outside the analysis: {e}', undecided=True)
         for n in ast.walk(fi.node):
             if isinstance(n, ast.Raise):
                 e = n.exc
@@ -583,7 +594,8 @@ def _neutral_context(n, parents):
                 if nm in NEUTRAL_CALLS:
                     return True, f'{nm}()'
                 if nm in ('sort_values', 'sorted', 'sort', 'argsort', 'index', 'searchsorted', 'startswith', 'endswith', 'find', 'replace',
-                          'lower', 'upper', 'split', 'join', 'max', 'min', 'groupby', 'rank', 'hash', 'ord', 'int', 'float'):
+                          'lower', 'upper', 'split', 'join', 'max', 'min', 'groupby', 'rank', 'hash', 'ord', 'int', 'float', 'any', 'all', 'strip',
+                          'casefold', 'title', 'capitalize', 'len', 'cumsum', 'sum'):
                     return False, f'line {par.lineno}: ceilometer names reach {nm}(): depends on their spelling / order'
         if isinstance(par, (ast.JoinedStr, ast.FormattedValue)):
             return True, 'message text'
